@@ -494,6 +494,45 @@ class Func:
                     seen.add(s); dq.append(s)
         return b2 not in seen
 
+    def guards(self, point):
+        """Branch outcomes every path from entry to `point` has taken:
+        [(atom E, truth, block)] with !/==0 folded into truth."""
+        out = []
+        for bid in self.blocks:
+            c = self.cond(bid)
+            if c is None:
+                continue
+            labs = [l for _, l in self.succs(bid)]
+            for lab in labs:
+                if isinstance(lab, bool) and self.edge_dominates(bid, lab, point) and (bid != point[0]):
+                    atom, pol = cond_atom(c)
+                    out.append((atom, lab if pol else (not lab), bid))
+        return out
+
+    def guarded_by(self, point, pred):
+        """pred(atom, truth) holds for some dominating branch outcome."""
+        return any(pred(a, t) for a, t, _ in self.guards(point))
+
+    def precedes(self, e1, e2):
+        """Event e1 is executed before e2 on every path reaching e2, and never after it."""
+        return self.dominates(e1.point, e2.point) and not self.reaches(e2.point, e1.point)
+
+    def reachable_without_edges(self, target_block, edges, start=None):
+        """Is target_block reachable from entry when the given (src, label) edges are removed?"""
+        edges = set(edges)
+        start = self.entry if start is None else start
+        seen = {start}; dq = deque([start])
+        while dq:
+            b = dq.popleft()
+            if b == target_block:
+                return True
+            for s_, l in self.succs(b):
+                if (b, l) in edges:
+                    continue
+                if s_ not in seen:
+                    seen.add(s_); dq.append(s_)
+        return False
+
     def reaches(self, p1, p2, avoiding=()):
         """Is there a CFG path from point p1 to point p2 that avoids the given points?"""
         avoiding = set(avoiding)
